@@ -7,8 +7,10 @@
    in ANY order with ANY bits missing gives one cable with bit i at position i - lower and empty
    wires in the gaps; a run of bit nets is read as exactly that cable; (member p x) reads pin x.
    Whole file (Fmt/EdifFile.v: elab_file, the reader construct by construct, tied to sdn.parse on every
-   run by harness/edif_file.py): [C05_full_reader_wf] every result is well formed, for ALL
-   documents; [C05_full_reader_sound] on supported documents the result is what the document
+   run by harness/edif_file.py): [C05_full_reader_wf] every result is fully well formed ([wf_file]:
+   references resolve, pins exist, no pin on two wires, sibling identifiers distinct, top declared,
+   EVERY instance referenced, EVERY port with at least one pin), for ALL documents;
+   [C05_full_reader_sound] on supported documents the result is what the document
    denotes ([denote_file], Fmt/EdifFileDenote.v); [C05_reader_sound_all] for all documents
    everything but the cable assembly is what the document denotes and the cables are read_nets of
    the denoted nets; [C05_nets_sound]/[C05_nets_complete] the cable assembly of one cell is sound
@@ -17,7 +19,13 @@
    -> the reader accepts d with the same structure): it needs the converse of every construct
    lemma of Proofs/EdifFileSound.v plus "declared before use" in [supported]; the first half of
    [C05_full] for UNSUPPORTED documents is false on the faithful model (open findings C05-K10,
-   K11, K13): [C05_full_refuted], from a computed witness, which is why [supported] excludes them. *)
+   K11, K13): [C05_full_refuted], from a computed witness, which is why [supported] excludes them.
+   Repaired reader defects (K14, K15, K16), now positive statements: an instance without viewRef and an
+   array port of size < 1 are refused ([C05_instances_referenced_ports_nonempty], examples
+   [C05_bare_instance_rejected], [C05_array_size_zero_rejected]); everything after the design construct
+   is read - [denote_file] ranges over ALL library items of the body, wherever the design stands
+   ([C05_library_after_design_read]); the keywords and parentheses of (cellRef x (libraryRef y)) are
+   checked, a second design is refused. *)
 From Coq Require Import String.
 From Coq Require Import List NArith Bool Permutation.
 From SV Require Import Base.Base Fmt.EdifLex Fmt.EdifName Fmt.EdifCable Fmt.EdifBus Fmt.EdifNets
@@ -171,15 +179,16 @@ Definition edif_file_reader : edif_reader := {|
   supported := fun d => EdifFileDenote.supported d = true;
   denote := denote_file;
   same_struct := @eq nvfile;
-  wf := wf_core;
+  wf := wf_file;
   elab := fun d => match elab_file d with Ok n => Some n | Err _ => None end |}.
 
 (* every document: what the reader returns is well formed (references resolve inside the result,
-   every pin on a wire exists, no pin on two wires, sibling identifiers distinct, top declared) *)
+   every pin on a wire exists, no pin on two wires, sibling identifiers distinct, top declared,
+   every instance has a reference, every port at least one pin) *)
 Theorem C05_full_reader_wf : forall d n, elab edif_file_reader d = Some n -> wf edif_file_reader n.
 Proof.
   intros d n. cbn. destruct (elab_file d) as [m|] eqn:E; [|discriminate].
-  intro H; inversion H; subst. exact (elab_file_wf_core d n E).
+  intro H; inversion H; subst. exact (elab_file_wf d n E).
 Qed.
 Print Assumptions C05_full_reader_wf.
 
@@ -188,7 +197,7 @@ Theorem C05_full_reader_sound : forall d n, supported edif_file_reader d ->
   elab edif_file_reader d = Some n -> denote edif_file_reader d n /\ wf edif_file_reader n.
 Proof.
   intros d n Hs. cbn in *. destruct (elab_file d) as [m|] eqn:E; [|discriminate].
-  intro H; inversion H; subst. split; [exact (elab_file_sound d n Hs E)|exact (elab_file_wf_core d n E)].
+  intro H; inversion H; subst. split; [exact (elab_file_sound d n Hs E)|exact (elab_file_wf d n E)].
 Qed.
 Print Assumptions C05_full_reader_sound.
 
@@ -216,7 +225,7 @@ Print Assumptions C05_reader_sound_all.
 (* from the characters of the file: for a document printed in the composer's layout, what the
    token-level entry of the model returns is sound for the document *)
 Theorem C05_text_sound : forall l n, sexp_ok (SList l) = true -> EdifFileDenote.supported (SList l) = true ->
-  elab_text (print (SList l)) = Ok n -> denote_file (SList l) n /\ wf_core n.
+  elab_text (print (SList l)) = Ok n -> denote_file (SList l) n /\ wf_file n.
 Proof. exact elab_text_print_sound. Qed.
 Print Assumptions C05_text_sound.
 
@@ -247,15 +256,16 @@ Definition C05_example_text : str := s2l
                   (instance (rename u2 ""u[2]"") (viewRef NETLIST (cellRef buf (libraryRef PRIMS))) (property INIT (string ""0F"")))
                   (net a (joined (portRef a) (portRef I (instanceRef u1)) (portRef I (instanceRef U2))))
                   (net (rename q_1_ ""q[1]"") (joined (portRef (member q 0)) (portRef O (instanceRef u2))))
-                  (net (rename q_0_ ""q[0]"") (joined (portRef (member q 1)) (portRef O (instanceRef u1)))))))))
+                  (net (rename q_0_ ""q[0]"") (joined (portRef (member q 1)) (portRef O (instanceRef u1))))))))
     (design top (cellRef top (libraryRef work))))".
 
 Example C05_example_supported_and_read :
   match read_first (tokenize C05_example_text) with
-  | Some (d, O) =>
+  | Some (d, O, []) =>
     EdifFileDenote.supported d = true /\
     match elab_file d with
     | Ok n => all_referencedb n = true /\ List.length (nf_libs n) = 2%nat /\ elab_text C05_example_text = Ok n /\
+              option_map tp_cell (nf_top n) = Some (s2l "top") /\
               match nf_libs n with
               | [_; W] => match li_cells W with
                           | [T] => map (fun e => (List.length (c_wires (e_cab e)), c_lower (e_cab e))) (ce_cabs T) = [(1%nat, 0%N); (2%nat, 0%N)]
@@ -266,3 +276,61 @@ Example C05_example_supported_and_read :
   | _ => False
   end.
 Proof. vm_compute. repeat split; reflexivity. Qed.
+
+(* ---- the repaired reader (former findings K14, K15, K16) ---- *)
+(* for all documents: whatever is returned has every instance referenced and no port without pins *)
+Theorem C05_instances_referenced_ports_nonempty : forall d n, elab_file d = Ok n ->
+  all_referenced n /\ ports_nonempty n.
+Proof. exact elab_file_full. Qed.
+Print Assumptions C05_instances_referenced_ports_nonempty.
+
+Definition C05_text_with (itf contents tail : string) : str := s2l
+  ("(edif n (edifVersion 2 0 0) (edifLevel 0) (keywordMap (keywordLevel 0))
+    (library work (edifLevel 0) (technology (numberDefinition))
+      (cell leaf (cellType GENERIC) (view netlist (viewType NETLIST) (interface (port a (direction INPUT)))))
+      (cell t (cellType GENERIC) (view netlist (viewType NETLIST) (interface " ++ itf ++ ") (contents " ++ contents ++ "))))" ++ tail).
+
+Definition libs_and_top (r : result nvfile) : option (list str * option (str * str)) :=
+  match r with
+  | Ok n => Some (map li_ident (nf_libs n), option_map (fun t => (tp_lib t, tp_cell t)) (nf_top n))
+  | Err _ => None
+  end.
+
+(* the hypotheses are satisfiable: the base text is accepted *)
+Example C05_repaired_base_accepted :
+  libs_and_top (elab_text (C05_text_with "(port x (direction INPUT))" "(instance u1 (viewRef netlist (cellRef leaf)))"
+                                         " (design t (cellRef t (libraryRef work))))"))
+  = Some ([s2l "work"], Some (s2l "work", s2l "t")).
+Proof. vm_compute. reflexivity. Qed.
+
+(* K14: (instance u1) with nothing after the name *)
+Example C05_bare_instance_rejected :
+  elab_text (C05_text_with "(port x (direction INPUT))" "(instance u1)" " (design t (cellRef t (libraryRef work))))") = Err FeShape.
+Proof. vm_compute. reflexivity. Qed.
+
+(* K15: an array port of size 0 / of negative size *)
+Example C05_array_size_zero_rejected :
+  elab_text (C05_text_with "(port (array y 0) (direction OUTPUT))" "" " (design t (cellRef t (libraryRef work))))") = Err FeShape
+  /\ elab_text (C05_text_with "(port (array y -2) (direction OUTPUT))" "" " (design t (cellRef t (libraryRef work))))") = Err FeShape.
+Proof. split; vm_compute; reflexivity. Qed.
+
+(* K16: a library declared after the design construct is part of the result; properties written inside the
+   design construct are skipped *)
+Example C05_library_after_design_read :
+  libs_and_top (elab_text (C05_text_with "(port x (direction INPUT))" ""
+     " (design t (cellRef t (libraryRef work)) (property part (string ""xc7"")))
+       (library later (edifLevel 0) (technology (numberDefinition))))"))
+  = Some ([s2l "work"; s2l "later"], Some (s2l "work", s2l "t")).
+Proof. vm_compute. reflexivity. Qed.
+
+(* K16: the keywords of the design's reference are checked, a second design is refused, a design naming a
+   library that is declared only after it is refused *)
+Example C05_design_construct_checked :
+  elab_text (C05_text_with "(port x (direction INPUT))" "" " (design t (foo t (libraryRef work))))") = Err FeShape
+  /\ elab_text (C05_text_with "(port x (direction INPUT))" "" " (design t (cellRef t (bar work))))") = Err FeShape
+  /\ elab_text (C05_text_with "(port x (direction INPUT))" ""
+       " (design t (cellRef t (libraryRef work))) (design t2 (cellRef leaf (libraryRef work))))") = Err FeMultiple
+  /\ elab_text (C05_text_with "(port x (direction INPUT))" ""
+       " (design t (cellRef c2 (libraryRef later))) (library later (edifLevel 0) (technology (numberDefinition)) (cell c2 (cellType GENERIC))))")
+     = Err FeUndeclared.
+Proof. repeat split; vm_compute; reflexivity. Qed.
